@@ -1025,6 +1025,21 @@ Proof.
   apply tok_loop_shift. unfold iroom, room. cbn [init_ist i_pos i_rest pos0 p_line]. lia.
 Qed.
 
+(* from scratch: consume the N lines, take a location, run any script *)
+Lemma shift_script_proof v L n src ops : complete_lines L n -> 1 + n + count_nl src <= u16_max ->
+  run_ops v (Adv (length L) :: Mark :: ops) (init_ist pos0 (L ++ src)) =
+    shift_ires n (bytes L) (run_ops v (Mark :: ops) (init_ist pos0 src)).
+Proof.
+  intros HL Hfit. pose proof (count_nl_nonneg src). pose proof (count_nl_nonneg L).
+  assert (Hn : 1 + n <= u16_max) by (destruct HL as [Hc _]; lia).
+  cbn [run_ops run_op init_ist i_pos i_rest i_mark i_out].
+  rewrite adv_n_prefix. cbn [i_pos i_rest i_mark i_out].
+  rewrite (advance_complete_lines L n HL Hn).
+  change (mkist (shift_pos n (bytes L) pos0) src (shift_pos n (bytes L) pos0) [])
+    with (shift_ist n (bytes L) (mkist pos0 src pos0 [])).
+  apply run_ops_shift. unfold iroom, room. cbn [i_pos i_rest pos0 p_line]. destruct HL as [Hc _]. lia.
+Qed.
+
 (* 4. the side tables *)
 Lemma get_line_semantic_proof ops idx : get_line (build ops) idx = line_of_ops ops idx.
 Proof.
